@@ -5,8 +5,38 @@ CONFIG = {
         "name": "kmd", "pkg": "./daemon/kmd/wallet/driver/", "run": "^TestVerifC46$",
         "files": ["daemon/kmd/wallet/driver/zz_verif_c46_test.go"],
         "util": [("daemon/kmd/wallet/driver", "driver")],
-        "env": {"quick": {"VERIF_C46_CASES": 30, "VERIF_C46_OPS": 45},
-                "thorough": {"VERIF_C46_CASES": 400, "VERIF_C46_OPS": 70}},
+        "env": {"quick": {"VERIF_C46_CASES": 40, "VERIF_C46_OPS": 45},
+                "thorough": {"VERIF_C46_CASES": 600, "VERIF_C46_OPS": 70}},
         "timeout": {"quick": 600, "thorough": 3000},
     }],
+    "rule": "real SQLiteWalletDriver/SQLiteWallet on SQLite files (scrypt with the smallest parameters via UnsafeScrypt). A case = one MDK and 2-3 "
+            "wallets: wallet 1 (blank/random or given MDK; operations on the uninitialised handle; Init; a random sequence of FetchWallet-again, Init, "
+            "CheckPassword, GenerateKey(displayMnemonic), ImportKey (keys the derivation reaches next / has reached / foreign, optionally with a corrupted "
+            "public half), ExportKey, DeleteKey, ExportMasterDerivationKey, SignProgram, RenameWallet, Import/DeleteMultisigAddr with right and wrong "
+            "passwords (random, one bit flipped, truncated, extended, empty; in every 5th case also the password followed by NUL bytes); finally "
+            "ExportMasterDerivationKey), then 1-2 restore wallets created in a fresh directory from the exported MDK (imports first, then generation "
+            "beyond wallet 1's highest index mixed with the other operations). After EVERY operation: result / error class, Metadata name, ListKeys, raw "
+            "(address, key_idx) rows, ListMultisigAddrs. derive/addr/multisig-address tables are recomputed independently in the harness (HMAC-SHA512/256 "
+            "block = HKDF-Expand, Go crypto/ed25519, SHA-512/256). Case 0 replays the witness of C46_wrong_password_bytes_refuted. Non-trivial = at least "
+            "one successful generate and one wrong-password operation in the case; distinct = distinct case lines.",
+    "exhaustive": {"quick": False, "thorough": False},
+    "explanation": "theorems: every operation sequence of any length, arbitrary carriers and arbitrary derive/addr/kdf/kdff under the stated premises "
+                   "(unbounded); the cases are random testing of the model-implementation correspondence and of the oracle on the implementation's output",
+    "assumptions": [
+        "no two derivation indices of one MDK give the same address (HKDF-Expand over SHA-512/256 + ed25519 key generation are collision free): derive_inj",
+        "the salted fast password hash (SHA-512/256 of salt||pw) is injective: kdff_inj",
+        "password acceptance on the slow path (Init, fresh handles, RenameWallet) = equality of what scrypt+secretbox derive from the password (kdf); "
+        "'wrong password' in C46_wrong_password_fails means kdf pw <> kdf pw0. For the real scrypt kdf pw = kdf (pw||0x00..): C46_wrong_password_bytes_refuted, "
+        "finding c46_password_trailing_nul",
+        "SQLite honours PRIMARY KEY (INSERT of a present address fails with a constraint error), DELETE of an absent row succeeds, a rolled back transaction "
+        "leaves no trace, exclusive transactions serialise GenerateKey; crypto/rand does not fail",
+        "secretbox authenticated encryption: rows written by the wallet decrypt to what was encrypted (errTampering / errTypeMismatch unreachable)",
+    ],
+    "trusted_base": [
+        "modelled: daemon/kmd/wallet/driver/sqlite.go CreateWallet/FetchWallet/Init/CheckPassword/GenerateKey+generateKeyTxLocked/ImportKey/ExportKey/"
+        "DeleteKey/ExportMasterDerivationKey/SignProgram(status)/RenameWallet/ImportMultisigAddr/DeleteMultisigAddr as a state machine over the table rows "
+        "(coq/model/Wallet.v); not modelled: the encryption itself, msgpack encoding, file system / wallet directory scanning, SignTransaction and the "
+        "multisig signing operations, concurrency (driver mutex, SQLite locking)",
+        "harness-side reference computations of derive/addr/multisig address (independent re-implementations, themselves trusted)",
+    ],
 }
